@@ -28,7 +28,7 @@ ASSUMPTIONS = [
 ]
 RPCS = ['SuggestTrials_w', 'SuggestTrials_v', 'CreateTrial', 'CompleteTrial', 'AddTrialMeasurement', 'StopTrial',
         'DeleteTrial', 'DeleteStudy', 'UpdateMetadata', 'SetStudyState', 'CreateStudy', 'CheckTrialEarlyStoppingState',
-        'DeleteTrial_requested']
+        'DeleteTrial_requested', 'UpdateMetadata_study', 'CompleteTrial_requested', 'UpdateMetadata_requested']
 
 
 def _request(name):
@@ -53,6 +53,21 @@ def _request(name):
     return 'StopTrial', vs.StopTrialRequest(name=tn)
   if name == 'DeleteTrial':
     return 'DeleteTrial', vs.DeleteTrialRequest(name=tn)
+  if name == 'UpdateMetadata_requested':            # metadata on the queued trial
+    r = vs.UpdateMetadataRequest(name=S)
+    d = r.delta.add()
+    d.trial_id = '2'
+    d.metadatum.key, d.metadatum.value = 'k', 'queued-trial-md'
+    return 'UpdateMetadata', r
+  if name == 'UpdateMetadata_study':                # study-level items only
+    r = vs.UpdateMetadataRequest(name=S)
+    d = r.delta.add()
+    d.metadatum.key, d.metadatum.value = 'k2', 'study-only'
+    return 'UpdateMetadata', r
+  if name == 'CompleteTrial_requested':             # the queued trial: refused while REQUESTED, fine once handed out
+    r = vs.CompleteTrialRequest(name=svc.trial_name(2))
+    r.final_measurement.metrics.add(metric_id='m', value=3.0)
+    return 'CompleteTrial', r
   if name == 'DeleteTrial_requested':
     return 'DeleteTrial', vs.DeleteTrialRequest(name=svc.trial_name(2))       # the queued (REQUESTED) trial
   if name == 'DeleteStudy':
@@ -283,14 +298,14 @@ def _schedule(a_name, b_name, k, args):
 
 def pair(a: int, b: int, k: int) -> bool:
   """
-  pre: 0 <= a <= 12 and 0 <= b <= 12 and 0 <= k <= 11
+  pre: 0 <= a <= 15 and 0 <= b <= 15 and 0 <= k <= 11
   post: _
   """
-  a = conc(a, 0, 12)
+  a = conc(a, 0, 15)
   sl = os.environ.get('VERIF_SLICE')
   if sl is not None and a != int(sl):
     return True
-  b, k = conc(b, 0, 12), conc(k, 0, 11)
+  b, k = conc(b, 0, 15), conc(k, 0, 11)
   return _schedule(RPCS[a], RPCS[b], k, (a, b, k))
 
 
